@@ -179,6 +179,11 @@ def macrobody(rng, kinds=None, irregular=None):
         lo = [c() for _ in range(3)]
         sz = [rng.choice([1.0, 2.0, 3.0, 4.5]) for _ in range(3)]
         return 'rpp', [lo[0], lo[0] + sz[0], lo[1], lo[1] + sz[1], lo[2], lo[2] + sz[2]]
+    if k == 'box' and rng.random() < 0.25:
+        # edges along x, y, z in this order, any of them pointing the negative way (facets are numbered by the vectors)
+        sg = lambda: rng.choice([1.0, -1.0])   # noqa
+        return 'box', [c(), c(), c()] + [sg() * rng.choice([1., 2., .5]), 0.0, 0.0] + [0.0, sg() * rng.choice([1., 2.]), 0.0] \
+            + [0.0, 0.0, sg() * rng.choice([1., 3., .5])]
     if k == 'box':
         a, b, cc = ortho_triple(rng)
         a, b, cc = scale(a, rng.choice([1., 2., .5])), scale(b, rng.choice([1., 2.])), scale(cc, rng.choice([1., 3., .5]))
@@ -773,3 +778,107 @@ def aux_plane_deck(rng):
     d.cells = cells
     d.mats = {1: [('13027', '1.0')], 2: [('26056', '-0.9'), ('6012', '-0.1')]}
     return d
+
+
+def round_mats(d, rng):
+    """material numbers of several digits, ending in zero, with a leading digit shared by another material (10, 100, 20,
+    1000 next to 1 and 2): the card `m10`, the cells' material entry and everything derived from them"""
+    pool = rng.sample([10, 20, 100, 1000, 30, 12, 101, 7, 200], 3)
+    ren = {}
+    for old_, new_ in zip(sorted(d.mats), pool):
+        if rng.random() < 0.7:
+            ren[old_] = new_
+    if not ren:
+        return
+    d.mats = {ren.get(k, k): v for k, v in d.mats.items()}
+    for c in d.cells:
+        if c.mat in ren:
+            c.mat = ren[c.mat]
+        raw = c.hints.get('raw')
+        if raw is not None and 'mat=' in raw.lower():
+            c.hints['raw'] = re_sub_mat(raw, ren)
+
+
+def re_sub_mat(raw, ren):
+    import re as _re
+    return _re.sub(r'(?i)(mat=)(\d+)', lambda m: m.group(1) + str(ren.get(int(m.group(2)), int(m.group(2)))), raw)
+
+
+def twin_block_deck(rng):
+    """two cells (or two members of one union) that are the same intersection but for one surface, taken with the negative
+    sense: number 1 in one, number 2 in the other (two pins between the same planes) — lists that a hash cannot tell apart"""
+    d = D.Deck()
+    a, b = (1, 2) if rng.random() < 0.8 else tuple(rng.sample(range(3, 9), 2))
+    others = rng.sample(range(10, 30), 3)
+    kind = rng.choice(['cz', 'so', 'c/z'])
+    if kind == 'cz':
+        d.surfs += [D.Surf(a, 'c/z', [-2.5, 0.5, 1.0]), D.Surf(b, 'c/z', [2.5, 0.5, 1.5])]
+    elif kind == 'so':
+        d.surfs += [D.Surf(a, 's', [-2.5, 0.0, 0.5, 1.0]), D.Surf(b, 's', [2.5, 0.5, 0.0, 1.5])]
+    else:
+        d.surfs += [D.Surf(a, 'c/z', [-3.0, -1.5, 1.25]), D.Surf(b, 'cz', [1.0])]
+    d.surfs += [D.Surf(others[0], 'pz', [-3.5]), D.Surf(others[1], 'pz', [3.5]), D.Surf(others[2], 'so', [9.5])]
+    lo, hi, w = others
+    blk = lambda s_: ('i', ('i', ('s', -s_), ('s', lo)), ('s', -hi))   # noqa
+    order = [a, b] if rng.random() < 0.5 else [b, a]
+    cids = rng.sample(range(1, 40), 4)
+    if rng.random() < 0.5:
+        cells = [D.Cell(cids[0], blk(order[0]), mat=1, rho='-1.0'), D.Cell(cids[1], blk(order[1]), mat=2, rho='-2.0'),
+                 D.Cell(cids[2], ('i', ('i', ('cc', cids[0]), ('cc', cids[1])), ('s', -w)), mat=3, rho='-3.0')]
+    else:
+        cells = [D.Cell(cids[0], ('u', blk(order[0]), blk(order[1])), mat=1, rho='-1.0'),
+                 D.Cell(cids[2], ('i', ('cc', cids[0]), ('s', -w)), mat=3, rho='-3.0')]
+    cells.append(D.Cell(cids[3], ('s', w), mat=0, imp=0))
+    rng.shuffle(cells)
+    d.cells = cells
+    d.mats = {1: [('13027', '1.0')], 2: [('26056', '-0.9'), ('6012', '-0.1')], 3: [('1001', '2'), ('8016', '1')]}
+    return d
+
+
+def deep_cell_deck(rng):
+    """a cell written as the intersection of more than a hundred half-spaces (a detector model exported from CAD): the
+    converter's recursive passes go that deep.  Either the long cell itself at level 0, or a universe that contains such
+    a cell and fills a sphere (the case where inlining has something to decide)"""
+    d = D.Deck()
+    if rng.random() < 0.5:
+        n = rng.choice([300, 300, 260])
+        for k in range(1, n + 1):
+            d.surfs.append(D.Surf(k, 'px', [float(k)]))
+        e = ('s', -1)
+        for k in range(2, n + 1):
+            e = ('i', e, ('s', -k))
+        d.cells = [D.Cell(1, e, mat=0), D.Cell(2, ('s', 1), mat=0, imp=0)]
+        d.mats = {}
+        return d
+    n = rng.choice([130, 140, 150, 160])
+    for k in range(1, n + 1):
+        d.surfs.append(D.Surf(k, 'px', [float(k)]))
+    w = 900
+    d.surfs.append(D.Surf(w, 'so', [500.0]))
+    e = ('s', -1)
+    for k in range(2, n + 1):
+        e = ('i', e, ('s', -k))
+    d.cells = [D.Cell(1, e, mat=1, rho='-1.0', u=1), D.Cell(2, ('s', 1), mat=2, rho='-2.0', u=1),
+               D.Cell(3, ('s', -w), mat=0, fill={'u': 1, 'tr': None}), D.Cell(4, ('s', w), mat=0, imp=0)]
+    d.mats = {1: [('1001', '1')], 2: [('8016', '1')]}
+    d._always_fresh = True      # (C18: always compared with a fresh interpreter)
+    return d
+
+
+def big_surface_ids(d, rng):
+    """some surfaces (macrobodies first) get six- to eight-digit numbers, as MCNP6 allows: facet references such as
+    123456.3 then need more digits than a careless number format keeps"""
+    if any(c.hints.get('raw') for c in d.cells) or any(s.trnum for s in d.surfs if False):
+        return
+    m = {s.id: s.id for s in d.surfs}
+    used = set(m)
+    cands = sorted(d.surfs, key=lambda s_: (s_.mn not in MACRO_NFACETS and s_.mn != 'arb', rng.random()))
+    for s_ in cands[:rng.randint(1, 2)]:
+        new = rng.choice([123456, 234567, 1234567, 99999999, 500001, 7654321]) + rng.randint(0, 3)
+        if new not in used:
+            m[s_.id] = new
+            used.add(new)
+    for s_ in d.surfs:
+        s_.id = m[s_.id]
+    for c in d.cells:
+        c.expr = D.expr_map_surfs(c.expr, m)
